@@ -29,6 +29,7 @@ func runC05(c *Check) {
 	c05AckedByAll(c, "C05", r)
 	c05NoLockAcrossWait(c, "C05", r)
 	c07TeardownOrder(c, "C05.O5", r)
+	c07LockOrder(c, "C05.O5", r)
 	c05DeliverUntilSettled(c, "C05.O3", r)
 	c11Handoff(c, "C05.O6", r)
 }
@@ -278,6 +279,18 @@ func c05AckedByAll(c *Check, P string, r *GCRoles) {
 						if sameValue(Receiver(a), wg) && isC && n == 1 && !ReachWithout(a, a, g) && Dominates(f, a, g) {
 							okAdd = true
 						}
+						// or once, before the loop, for the whole list: Add(len(list)) with one goroutine per element of that list
+						if largs, isLen := IsBuiltinCall(a.Common().Args[1], "len"); isLen && sameValue(Receiver(a), wg) && !InLoop(a) && Dominates(f, a, g) {
+							AllInstrs(f, func(in ssa.Instruction) {
+								ia, ok := in.(*ssa.IndexAddr)
+								if !ok || !IsFullRangeIndex(ia.Index, ia.X) || !sameValue(ia.X, largs[0]) {
+									return
+								}
+								if inc, isIns := ia.Index.(ssa.Instruction); isIns && !ReachWithout(inc, inc, g) && !ReachWithout(g, g, inc) {
+									okAdd = true
+								}
+							})
+						}
 					}
 					c.Report(okAdd, P+".O3", "WG-ADD-BEFORE-GO", f, g.Pos(), "go deliver", "wg.Add(1) precedes every go statement (once per goroutine)")
 					lit := FuncOfValue(g.Call.Value)
@@ -323,6 +336,27 @@ func c05NoLockAcrossWait(c *Check, P string, r *GCRoles) {
 			"the wait for subscribers' acks must not happen while the subscribers lock is held (a subscriber that publishes to another topic while a Subscribe is pending deadlocks on RWMutex writer preference)", "held: "+held.String())
 	}
 	c.RoleKeys = false
+	// besides the topic mutex (one batch at a time per topic, by design) nothing else is held across the wait: a lock
+	// every Publish needs (persisted-messages lock, closed lock) would make a subscriber that publishes before it acks deadlock
+	for i, si := range r.waitSelects() {
+		held := r.LA.Held(si.Sel)
+		var extra []string
+		for id := range held {
+			if id != r.idSubs && id != r.idTopic {
+				extra = append(extra, id)
+			}
+		}
+		for _, ws := range r.waitSitesInPublish() {
+			for id := range r.LA.MayHoldAt(ws) {
+				if id != r.idSubs && id != r.idTopic && !contains(extra, id) {
+					extra = append(extra, id)
+				}
+			}
+		}
+		sort.Strings(extra)
+		c.Report(len(extra) == 0, P+".O4", "NO-OTHER-LOCK-ACROSS-WAIT", W, si.Sel.Pos(), fmt.Sprintf("blocking-publish wait: select#%d", i),
+			"while waiting for the subscribers' acks Publish holds no lock that other Publish calls need (only its topic's mutex)", "held: "+held.String()+"; not allowed: "+strings.Join(extra, ","))
+	}
 	// the wait's other exit is the Pub/Sub's closing signal: Close must be able to raise it while a Publish waits
 	sig := CloseSites(r.Close, func(v ssa.Value) bool { return AllOrigins(v, IsFieldLoad(r.Closing)) })
 	c.Floor(P+".O4", "close(closing signal) in GoChannel.Close", len(sig), 1)
@@ -342,4 +376,13 @@ func c05NoLockAcrossWait(c *Check, P string, r *GCRoles) {
 				"held at the wait: "+held.String()+"; held at close(closing): "+need.String()+"; clash: "+strings.Join(clash, ","))
 		}
 	}
+}
+
+func contains(xs []string, x string) bool {
+	for _, y := range xs {
+		if y == x {
+			return true
+		}
+	}
+	return false
 }
